@@ -61,7 +61,9 @@ fn resolve_frames(raw: &[RawCall], f: Features) -> Vec<FrameSpec> {
             FrameSpec::Call {
                 kind,
                 id: i as u32,
-                oneway: r.oneway && !sub,
+                // a streaming call may be flagged oneway too (about one Sub in seven): the service still
+                // answers with a stream, which the server has to discard
+                oneway: r.oneway && (!sub || r.flags_first),
                 more: sub,
                 pad: r.pad,
                 flags_first: r.flags_first,
